@@ -15,6 +15,8 @@
 (*   Geometry every count is the number of grid samples (s, y) of the      *)
 (*            pixel with top <= y < bottom and XL(y) <= s < XR(y), up to   *)
 (*            samples lying exactly on an edge line.                       *)
+(*   WideRows the cursor of the mathematical line (wide edges) gives the   *)
+(*            same rows of spans as the walker records.                    *)
 (* Negative configurations: QStale = TRUE, QExact0 = TRUE (the unrepaired  *)
 (* walker): HSplit fails, i.e. TLC exhibits a trapezoid that does not tile *)
 (* with itself.                                                            *)
@@ -83,6 +85,15 @@ Shift ==
        /\ LET rx == Rows(c.tz, c.n, 1, 0) IN \A q \in 1..H : rx[q] = ShiftSpans(r0[q], Fixed1)
        /\ LET ry == Rows(c.tz, c.n, 0, 1) IN \A q \in 1..(H - 1) : ry[q + 1] = r0[q]
        /\ LET rz == Rows(c.tz, c.n, 0, -1) IN \A q \in 2..H : rz[q - 1] = r0[q]
+
+(* WIDE EDGES: the rows of spans obtained by following both edges with the cursor of the         *)
+(* mathematical line (as the specification does for edges whose deltas need 33 bits) are the    *)
+(* rows the walker records give, at every offset.                                               *)
+SmallBase == 4
+WideRows ==
+    c.ph = "trap" =>
+       \A o \in {<<0, 0>>, <<1, -1>>} :
+          TrapRowsG(c.tz, c.n, W, H, o[1], o[2], NoQuirks, TRUE) = TrapRowsG(c.tz, c.n, W, H, o[1], o[2], NoQuirks, FALSE)
 
 (* The geometric meaning of the counts.  For pixel (p, q): inner = samples strictly inside     *)
 (* (XL < s < XR), outer = samples inside or on an edge line (XL <= s <= XR), rows top <= y <    *)
